@@ -11,7 +11,7 @@ T=skipped
 if [ "$SKIP" != "--skip-tests" ]; then
   if ( cd "$S" && /venv/bin/python -m pytest -q -x -p no:cacheprovider bitcoin/tests >/dev/null 2>&1 ); then T=pass; else T=FAIL; fi
 fi
-OUT="$(cd "$HERE" && VERIF_REPO="$S" VERIF_EVIDENCE_DIR="$S/.evidence" VERIF_REPLAY_DIR="$S/.replays" ./check "$ID" "$TIER" 2>&1)"; RC=$?
+OUT="$(cd "$HERE" && timeout 900 env VERIF_REPO="$S" VERIF_EVIDENCE_DIR="$S/.evidence" VERIF_REPLAY_DIR="$S/.replays" ./check "$ID" "$TIER" 2>&1)"; RC=$?
 echo "$(basename "$PATCH") tests=$T check_rc=$RC"
 echo "$OUT" | grep -E "VIOLATION|key=|HARNESS" | head -8
 rm -rf "$S"
